@@ -604,7 +604,9 @@ def d10(chk, prog):
             out.append(v)
         return out
     layouts = {"chr2 small abutting tiles, chr10 wide isolated ones": [("chr2", [(0, 40), (40, 90), (120, 150)]), ("chr10", [(0, 500), (1000, 1500)])],
-               "chr1, chr10, chr2 in natural order": [("chr1", [(0, 60), (70, 400)]), ("chr2", [(0, 30), (30, 60), (500, 640)]), ("chr10", [(10, 210)])]}
+               "chr1, chr10, chr2 in natural order": [("chr1", [(0, 60), (70, 400)]), ("chr2", [(0, 30), (30, 60), (500, 640)]), ("chr10", [(10, 210)])],
+               # a neighbour that overlaps the tile counts as adjacent (gap 0), also when the overlap is deeper than the tile is small
+               "overlapping neighbours (gap < 0 counts as 0)": [("chr3", [(0, 80), (60, 130), (125, 400), (499, 540)]), ("chr4", [(0, 30), (20, 45)])]}
     for label, lay in layouts.items():
         for labels_kind in ("range", "other"):
             W.reset()
